@@ -28,9 +28,18 @@
     The step function takes [midcheck : bool]: [true] is checkpointWithExecutor
     as fixed by /repo commit 80a5b27 (header re-read after a FULL/RESTART
     PRAGMA, [restartedBeforeCheckpoint]), [false] the control flow before it.
-    The post-PRAGMA decisions are the separate functions [mid_restarted] and
+    [postcopy : bool] likewise for /repo commit 6edd82b (one more copy after a
+    FULL/RESTART PRAGMA when the header is unchanged).  The post-PRAGMA
+    decisions are the separate functions [mid_restarted], [needs_post] and
     [ck_decide], which Db/MachineEntry.v exposes for trace conformance with
-    db.go. *)
+    db.go.
+
+    SQLite's locking as the environment steps enforce it (wal.c): while
+    litestream holds read mark m > 0, no checkpoint backfills past m and nobody
+    restarts or truncates the WAL; while it holds mark 0, no checkpoint
+    backfills anything (WAL_READ_LOCK(0) is needed exclusively) but a writer MAY
+    restart a completely backfilled WAL; while it holds no mark, anything goes;
+    while it holds the write lock, nobody commits or truncates. *)
 From Coq Require Import List NArith Bool Lia Arith.
 From LS Require Import Db.Image.
 Import ListNotations.
@@ -44,6 +53,14 @@ Variable lock : N.
     WAL header is read again right after a FULL/RESTART checkpoint);
     [midcheck = false]: the control flow before that fix. *)
 Variable midcheck : bool.
+(** [postcopy = true]: additionally /repo commit 6edd82b (after a FULL/RESTART
+    checkpoint whose header re-read found the header unchanged, the WAL is copied
+    once more before the bump); [postcopy = false]: without it. *)
+Variable postcopy : bool.
+(** [recheck = true]: a PROPOSED further change, not in /repo: after that copy the
+    header is read once more and a difference also forces the boundary snapshot;
+    [recheck = false]: the code as it stands. *)
+Variable recheck : bool.
 
 Definition tx : Type := list (frame data).
 Definition flen (ts : list tx) : nat := length (concat ts).
@@ -67,7 +84,9 @@ Inductive pcT :=
 | PSealed (hg : nat)                         (* PASSIVE: sealed copy done under the write lock *)
 | PReleased (m : mode) (hg pre : nat)        (* execCheckpoint: read transaction rolled back *)
 | PCkpted (m : mode) (hg pre wn : nat)       (* PRAGMA wal_checkpoint returned; read lock re-acquired when ls_mark <> None *)
-| PUnlocked (m : mode) (hg pre wn : nat) (rb : bool)  (* mid header read ([rb] = restartedBeforeCheckpoint); barrier rolled back *)
+| PMid (m : mode) (hg pre wn : nat) (rb : bool)       (* FULL/RESTART: header read again, [rb] = restartedBeforeCheckpoint *)
+| PPost (m : mode) (hg pre wn : nat)                  (* FULL/RESTART: the copy after the checkpoint is done *)
+| PUnlocked (m : mode) (hg pre wn : nat) (rb : bool)  (* barrier rolled back; [rb] final *)
 | PBumped (m : mode) (hg pre wn : nat) (rb : bool)    (* bumpLitestreamSeq committed *)
 | PRecopy                                    (* header changed: verifyAndSync once more *)
 | PBoundary                                  (* header changed: boundary snapshot chosen *)
@@ -325,6 +344,11 @@ Definition frb (m : mode) : bool := match m with Full | Restart => true | _ => f
 Definition mid_restarted (m : mode) (hg g : nat) : bool :=
   midcheck && frb m && negb (hg =? g).
 
+(** the copy of commit 6edd82b is due *)
+Definition needs_post (m : mode) (rb : bool) : bool := postcopy && frb m && negb rb.
+Definition post_pending (p : pcT) : bool :=
+  match p with PMid m _ _ _ rb => needs_post m rb | _ => false end.
+
 Inductive ckdec := DNotRestarted | DRecopy | DBoundary.
 
 (** [g]: generation of the header read after the bump ([other]) *)
@@ -350,6 +374,7 @@ Inductive label :=
 | LsRelease
 | LsCkpt (j : nat) (sz : N)
 | LsReacquire
+| LsMid
 | LsUnlock
 | LsBump (t : tx) (restart : bool)
 | LsCmpHdr
@@ -374,6 +399,10 @@ Definition step (s : state) (l : label) : option state :=
       | PHdr m hg => option_map (fun s' => set_pc s' (PCopied m hg)) (do_sync s k)
       | PLocked hg => option_map (fun s' => set_pc s' (PSealed hg)) (do_sync s k)
       | PRecopy => option_map (fun s' => set_pc s' Idle) (do_sync s k)
+      | PMid m hg pre wn rb =>
+          if needs_post m rb
+          then option_map (fun s' => set_pc s' (PPost m hg pre wn)) (do_sync s k)
+          else None
       | _ => None
       end
   | LsAck =>
@@ -422,11 +451,22 @@ Definition step (s : state) (l : label) : option state :=
       | PCkpted _ _ _ _, None => Some (set_mark s (acquire s))
       | _, _ => None
       end
-  | LsUnlock =>
+  | LsMid =>
+      (* execCheckpoint has returned (read lock held again); FULL/RESTART read the header *)
       match pc s, ls_mark s with
-      | PCkpted m hg pre wn, Some _ =>
-          Some (set_wlock (set_pc s (PUnlocked m hg pre wn (mid_restarted m hg (gen s)))) false)
+      | PCkpted m hg pre wn, Some _ => Some (set_pc s (PMid m hg pre wn (mid_restarted m hg (gen s))))
       | _, _ => None
+      end
+  | LsUnlock =>
+      match pc s with
+      | PMid m hg pre wn rb =>
+          if needs_post m rb then None
+          else Some (set_wlock (set_pc s (PUnlocked m hg pre wn rb)) false)
+      | PPost m hg pre wn =>
+          (* proposed: restartedBeforeCheckpoint is recomputed from a header read after the copy *)
+          (* no barrier to roll back in these modes *)
+          Some (set_pc s (PUnlocked m hg pre wn (recheck && negb (hg =? gen s))))
+      | _ => None
       end
   | LsBump t r =>
       match pc s with
@@ -462,18 +502,18 @@ Definition label_ok (s : state) (l : label) : Prop :=
   | _ => True
   end.
 
-(** The one window the fixed FULL/RESTART protocol leaves open: between the
-    PRAGMA's return and the re-acquisition of the read transaction no barrier
-    and no read mark is held.  A commit appended there (an application reader
-    with a mark > 0 keeps it from restarting the WAL) followed by a checkpoint
-    that completes the backfill lets litestream re-acquire mark 0 behind an
-    uncopied transaction with walFrameN = preCheckpointFrameN.  [window_ok]
-    excludes exactly that checkpoint. *)
+(** The one window the twice-fixed FULL/RESTART protocol leaves open: between the
+    header re-read ([LsMid], header unchanged) and the header read of the copy
+    that follows it ([LsSync] at [PMid]).  Litestream may hold mark 0 there
+    behind a transaction it has not copied (appended and backfilled while its
+    read transaction was released); a commit that restarts the WAL in that
+    instant is not seen by the re-read, the copy continues from the new header
+    on evidence (C).  [window_ok] excludes exactly such a restart; with the
+    proposed [recheck] it excludes nothing. *)
 Definition window_ok (s : state) (l : label) : bool :=
-  match pc s, ls_mark s, l with
-  | PCkpted m _ _ _, None, AppCkpt j _ =>
-      negb (frb m) || negb (j =? length (txs s)) || (backfilled s =? length (txs s))
-  | _, _, _ => true
+  match l with
+  | AppCommit _ true | AppTruncate => recheck || negb (post_pending (pc s))
+  | _ => true
   end.
 
 Fixpoint run (s : state) (ls : list label) : option state :=
